@@ -656,6 +656,8 @@ impl<'a> Interp<'a> {
         let ch = match self.next_char(p) {
             Some(ch) => ch,
             None => {
+                // at end of input every alternative is (or may be) attempted and fails there
+                self.note_class_parts_at_eoi(c, p, 0);
                 self.note(p, spec);
                 return Err(());
             }
@@ -722,6 +724,27 @@ impl<'a> Interp<'a> {
         }
         self.note(p, spec);
         Err(())
+    }
+
+    fn note_class_parts_at_eoi(&mut self, c: &CharRule, p: usize, depth: usize) {
+        if depth > 16 {
+            return;
+        }
+        for part in &c.parts {
+            match part {
+                CharPart::Char(x) => self.note(p, format!("ExpectedCharacter {{ c: {:?} }}", x)),
+                CharPart::Range(a, b) => self.note(p, format!("ExpectedCharacterRange {{ from: {:?}, to: {:?} }}", a, b)),
+                CharPart::Class(n) => {
+                    if n == "char" && self.g.find("char").is_none() {
+                        self.note(p, "ExpectedAnyCharacter".into());
+                    } else if let Some(RuleDef::CharClass(inner)) = self.g.find(n) {
+                        let inner = inner.clone();
+                        self.note_class_parts_at_eoi(&inner, p, depth + 1);
+                        self.note(p, format!("ExpectedCharacterClass {{ name: {:?} }}", inner.name));
+                    }
+                }
+            }
+        }
     }
 
     fn body_once(&mut self, n: &NormalRule, p: usize) -> Result<(usize, Val), ()> {
